@@ -57,8 +57,8 @@ pub open spec fn object_loop2(o: &crate::nitrogql_ast::type_system::ObjectTypeDe
 //@   loop 1 body_ensures [C05.ts_object.impl.body_frame] crate::extends_errs(old(result)@, result@)
 //@   loop 1 body_ensures [C05.ts_object.impl.body_step] (result@.len() == old(result)@.len()) <==> crate::object_loop2(object, definitions, it2.index@ as int + 1)
 //@   loop 1 body_prefix broadcast use crate::str_key_model; proof { crate::axiom_str_obeys(); }
-//@   hint before 0 "continue;" :: [C05.ts_object.impl.body_step#unknown] proof { assert(!crate::implements_ok(definitions, object.name, object.fields@, object.implements@, it2.index@ as int)); }
-//@   hint before 1 "continue;" :: [C05.ts_object.impl.body_step#notiface] proof { assert(!crate::implements_ok(definitions, object.name, object.fields@, object.implements@, it2.index@ as int)); }
+//@   hint after 0 "let Some(interface_def) = definitions.types.get(interface.name) else {" :: [C05.ts_object.impl.body_step#unknown] proof { assert(!crate::implements_ok(definitions, object.name, object.fields@, object.implements@, it2.index@ as int)); }
+//@   hint after 0 "let TypeDefinition::Interface(def) = interface_def else {" :: [C05.ts_object.impl.body_step#notiface] proof { assert(!crate::implements_ok(definitions, object.name, object.fields@, object.implements@, it2.index@ as int)); }
 //@   hint before 0 "check_valid_implementation(" :: [C05.ts_object.impl.body_step#pre] let ghost len_b = result@.len(); proof { assert(definitions.types@.contains_key(interface.name)); assert(**interface_def == *definitions.types@[interface.name]); assert(*def == definitions.types@[interface.name]->Interface_0); }
 //@   hint after 0 "def, result, );" :: [C05.ts_object.impl.body_step#post] proof { let i = it2.index@ as int; assert((result@.len() == len_b) <==> crate::implements_ok(definitions, object.name, object.fields@, object.implements@, i)); }
 //@ end
@@ -94,9 +94,9 @@ pub open spec fn iface_loop2(o: &crate::nitrogql_ast::type_system::InterfaceType
 //@   loop 1 body_ensures [C05.ts_interface.impl.body_frame] crate::extends_errs(old(result)@, result@)
 //@   loop 1 body_ensures [C05.ts_interface.impl.body_step] (result@.len() == old(result)@.len()) <==> crate::iface_loop2(interface, definitions, it2.index@ as int + 1)
 //@   loop 1 body_prefix broadcast use crate::str_key_model, crate::axiom_str_eq; proof { crate::axiom_str_obeys(); }
-//@   hint before 0 "continue;" :: [C05.ts_interface.impl.body_step#self] proof { assert(!crate::iface_implements_ok(interface, definitions, it2.index@ as int)); }
-//@   hint before 1 "continue;" :: [C05.ts_interface.impl.body_step#unknown] proof { assert(!crate::iface_implements_ok(interface, definitions, it2.index@ as int)); }
-//@   hint before 2 "continue;" :: [C05.ts_interface.impl.body_step#notiface] proof { assert(!crate::iface_implements_ok(interface, definitions, it2.index@ as int)); }
+//@   hint after 0 "if interface.name.name == other_interface.name {" :: [C05.ts_interface.impl.body_step#self] proof { assert(!crate::iface_implements_ok(interface, definitions, it2.index@ as int)); }
+//@   hint after 0 "let Some(interface_def) = definitions.types.get(other_interface.name) else {" :: [C05.ts_interface.impl.body_step#unknown] proof { assert(!crate::iface_implements_ok(interface, definitions, it2.index@ as int)); }
+//@   hint after 0 "let TypeDefinition::Interface(def) = interface_def else {" :: [C05.ts_interface.impl.body_step#notiface] proof { assert(!crate::iface_implements_ok(interface, definitions, it2.index@ as int)); }
 //@   hint before 0 "check_valid_implementation(" :: [C05.ts_interface.impl.body_step#pre] let ghost len_b = result@.len(); proof { assert(definitions.types@.contains_key(other_interface.name)); assert(**interface_def == *definitions.types@[other_interface.name]); assert(*def == definitions.types@[other_interface.name]->Interface_0); }
 //@   hint after 0 "def, result, );" :: [C05.ts_interface.impl.body_step#post] proof { let i = it2.index@ as int; assert((result@.len() == len_b) <==> crate::iface_implements_ok(interface, definitions, i)); }
 //@ end
